@@ -14,6 +14,17 @@ fn main() {
       println!("{}", serde_json::json!({"lang": util::lang_name(l), "n": p.nodes}));
     }
     "drive" => drive(&args[2..]),
+    "zero-width" => {
+      // agv zero-width <corpus dir>: real (not MISSING) zero-width nodes per corpus file
+      for (l, path, text) in util::corpus(&args[2]) {
+        let g = l.ast_grep(&text);
+        let root = g.root();
+        let errs = root.dfs().filter(|n| n.is_error() || n.get_ts_node().is_missing()).count();
+        let zs: Vec<String> = root.dfs().filter(|n| n.range().is_empty() && !n.get_ts_node().is_missing())
+          .map(|n| format!("{}{}<{}", n.kind(), if n.is_named() { "" } else { "(anon)" }, n.parent().map(|p| p.kind().to_string()).unwrap_or_default())).collect();
+        println!("{path}: errors={errs} zero-width={zs:?}");
+      }
+    }
     "c12-apply" => c12::apply_child(&args[2]),
     "universe" => {
       // agv universe --mode carrier|corpus|both [--corpus d] [--seed n] [--tier t] --out f
